@@ -48,8 +48,13 @@ ItemPool == <<IC("match_string", FALSE, t_foo), IC("match_string", TRUE, t_foo),
               [IC("state", FALSE, <<>>) EXCEPT !.k = <<122>>, !.v = <<>>],
               [IC("state", FALSE, <<>>) EXCEPT !.k = <<110>>, !.op = "gt", !.num = TRUE, !.n = 4],
               [IC("state", FALSE, <<>>) EXCEPT !.k = t_k, !.op = "gt", !.num = TRUE, !.n = 4]>>
-FC(t, names, s) == [t |-> t, names |-> names, s |-> s, k |-> <<>>, v |-> <<>>, op |-> "eq", num |-> FALSE, n |-> 0]
-FieldPool == <<FC("include", <<fH>>, <<>>), FC("exclude", <<fG>>, <<>>), FC("include", <<fB>>, <<>>), FC("include", <<fC, fD>>, <<>>), FC("exclude", <<fB>>, <<>>), FC("include", <<fA>>, <<>>),
+FC(t, names, s) == [t |-> t, names |-> names, s |-> s, k |-> <<>>, v |-> <<>>, op |-> "eq", num |-> FALSE, n |-> 0, pats |-> <<>>]
+RP(ci, text, end) == [ci |-> ci, text |-> text, end |-> end]
+FCR(t, pats) == [FC(t, <<>>, <<>>) EXCEPT !.pats = pats]
+\* fieldh (any case) | FIELDB exactly ; fieldc... (any case) | fieldD exactly   - the flag of the first expression is the first one's alone
+RePats1 == <<RP(TRUE, <<102,105,101,108,100,104>>, FALSE), RP(FALSE, <<70,73,69,76,68,66>>, TRUE)>>
+RePats2 == <<RP(TRUE, <<70,73,69,76,68,67>>, FALSE), RP(FALSE, fD, TRUE)>>
+FieldPool == <<FCR("include_re", RePats1), FCR("exclude_re", RePats1), FCR("include_re", RePats2), FC("include", <<fH>>, <<>>), FC("exclude", <<fG>>, <<>>), FC("include", <<fB>>, <<>>), FC("include", <<fC, fD>>, <<>>), FC("exclude", <<fB>>, <<>>), FC("include", <<fA>>, <<>>),
                FC("exclude", <<fE, fC>>, <<>>), FC("applied", <<>>, t_ren),
                [FC("state", <<>>, <<>>) EXCEPT !.k = t_k, !.v = t_v], [FC("state", <<>>, <<>>) EXCEPT !.k = t_k, !.v = t_w],
                [FC("state", <<>>, <<>>) EXCEPT !.k = <<122>>, !.v = <<>>],
